@@ -63,6 +63,8 @@ def expat_view(text):
         p.Parse(text.encode("utf-8"), True)
     except X.ExpatError as e:
         return None, str(e)
+    except Exception as e:          # e.g. an encoding name expat does not know
+        return "skip", str(e)
     return nodes, None
 
 
@@ -90,6 +92,10 @@ def main(path, limit=20):
         n += 1
         text = s(c["text"])
         nodes, err = expat_view(text)
+        if nodes == "skip":
+            continue
+        if "ParameterEntity" in c["viol"]:
+            continue
         issue = None
         if c["wf"] and nodes is None:
             issue = "spec wf, expat rejects: " + err
